@@ -207,6 +207,11 @@ def wire(c):
     return f"raw {rule} {op} {pbx.wire_pb(*x)} {pbx.wire_pb(*y)}"
 
 
+def _gen_frechet():
+    from .translator import frechet
+    return frechet.generate(core.REPO, core.LEAN / "Pun/Gen/FrechetGen.lean")
+
+
 def run(ctx: core.Check):
     core.stub_moments()
     ctx.rule = ("raw perfect/opposite/independent rules on duck-typed operands (5-value grid boxes n=1,2; random n=3..6, every sign class) "
@@ -214,7 +219,8 @@ def run(ctx: core.Check):
                 "Non-trivial = not both operands degenerate points; distinct on (rule,op,operands).")
     ctx.assumptions = ["order of equal keys in numpy.sort is irrelevant to the sorted values",
                        "binary64 rounding not modelled (exact agreement on integer streams for + - *)"]
-    ctx.lean_stage(["Pun.Lemmas.PBoxFrechet2", "Pun.Lemmas.PBoxRecip", "Pun.Props.C03"])
+    ctx.lean_stage(["Pun.Lemmas.PBoxFrechet2", "Pun.Lemmas.PBoxRecip", "Pun.Props.C03", "Pun.Props.C02Gen"],
+                   generators=[("operation.frechet_op loop", _gen_frechet)])
     cases = gen_cases(ctx)
     replies = core.model_batch("C03", [wire(c) for c in cases])
     for c, rep in zip(cases, replies):
